@@ -406,7 +406,7 @@ const (
 	c10BadSize      // known fixed-size record with another length
 )
 
-func c10StreamRun(huge bool, lmax int, maxType bool) {
+func c10StreamRun(huge bool, lmax int, maxType bool, longLen bool) {
 	mode := vChoice("mode", 4)
 	var n int
 	if huge {
@@ -433,9 +433,17 @@ func c10StreamRun(huge bool, lmax int, maxType bool) {
 		// among them 2^64-1) followed by up to 4 more bytes
 		n = 10 + vChoice("tail", 4)
 	}
+	if longLen {
+		// buffers that start with a one-byte type and a 5-byte BigSize length
+		// (65536 .. 2^32-1: beyond the p2p record bound) plus up to 2 bytes
+		n = 6 + vChoice("tail", 3)
+	}
 	b := vBytes("b", n)
 	if huge {
 		vAssume(b[0] < 0xfd && b[1] == 0xff)
+	}
+	if longLen {
+		vAssume(b[0] < 0xfd && b[1] == 0xfe)
 	}
 	if maxType {
 		vAssume(b[0] == 0xff)
@@ -570,12 +578,12 @@ func c10StreamRun(huge bool, lmax int, maxType bool) {
 // decoded values and parsed-type map are those of the reference parse, and
 // re-encoding reproduces the input. Declared lengths < 2^63.
 func VerifC10Stream() {
-	c10StreamRun(false, c10StreamQuick, false)
+	c10StreamRun(false, c10StreamQuick, false, false)
 }
 
 // VerifC10StreamDeep: the same with buffers up to c10StreamDeep bytes.
 func VerifC10StreamDeep() {
-	c10StreamRun(false, c10StreamDeep, false)
+	c10StreamRun(false, c10StreamDeep, false, false)
 }
 
 const (
@@ -587,12 +595,19 @@ const (
 // one-byte type and a 9-byte BigSize length (>= 2^32, lengths >= 2^63
 // admitted): the decoder converts the length to int64 for io.CopyN.
 func VerifC10StreamHugeLen() {
-	c10StreamRun(true, 10, false)
+	c10StreamRun(true, 10, false, false)
 }
 
 // VerifC10StreamMaxType: buffers of 10..13 bytes whose first record has a
 // 9-byte type (>= 2^32, including 2^64-1 after which no further record may
 // follow).
 func VerifC10StreamMaxType() {
-	c10StreamRun(false, 13, true)
+	c10StreamRun(false, 13, true, false)
+}
+
+// VerifC10StreamLongLen: buffers of 6..8 bytes whose first record has a
+// one-byte type and a 5-byte length (> 65535): refused with ErrRecordTooLarge
+// on the p2p path, a truncated record otherwise.
+func VerifC10StreamLongLen() {
+	c10StreamRun(false, 8, false, true)
 }
